@@ -26,11 +26,13 @@ func InitGenesis(ctx sdk.Context, k keeper.Keeper, data types.GenesisState) {
 			panic(fmt.Errorf("unknown servcie request context: %s", entry.Feed.RequestContextID))
 		}
 
-		for _, value := range entry.Values {
+		// the values are exported newest first: the newest one was recorded by the current batch, each older
+		// one by an earlier batch - every value keeps a key of its own and the recorded order
+		for i, value := range entry.Values {
 			k.SetFeedValue(
 				ctx,
 				entry.Feed.FeedName,
-				reqCtx.BatchCounter,
+				reqCtx.BatchCounter-uint64(i),
 				entry.Feed.LatestHistory,
 				value,
 			)
